@@ -199,7 +199,8 @@ def run_check(pid, tier):
     known = [k for k in load_known() if k.get("property") == pid and k.get("status") == "known"]
     violations = []
     known_hit = []
-    replay_dir = os.path.join(ROOT, "replays", pid)
+    OUT = os.environ.get("VERIF_OUT") or ROOT  # seed runs on scratch copies write their evidence / replays elsewhere
+    replay_dir = os.path.join(OUT, "replays", pid)
     for e in failed:
         k = next((k for k in known if k.get("obligation") == e["name"]), None)
         if k is not None:
@@ -241,7 +242,7 @@ def run_check(pid, tier):
         # try to turn it into a failing input on the real code
         witness = None
         if hasattr(prop, "NATIVE"):
-            tmp = os.path.join(ROOT, path + ".req")
+            tmp = os.path.join(OUT, path + ".req")
             json.dump(rec, open(tmp, "w"))
             res = run_native(prop.NATIVE, ["--search", tmp, "--tier", tier, "--seed", str(seed)])
             os.unlink(tmp)
@@ -250,7 +251,7 @@ def run_check(pid, tier):
         if witness is None and nat_viol:
             witness = nat_viol[0]
         rec["input"] = witness
-        json.dump(rec, open(os.path.join(ROOT, path), "w"), indent=1, default=str)
+        json.dump(rec, open(os.path.join(OUT, path), "w"), indent=1, default=str)
         if witness is not None:
             print("VIOLATION property=%s replay=%s" % (pid, path))
         else:
@@ -262,7 +263,7 @@ def run_check(pid, tier):
             path = os.path.join("replays", pid, "native_%d.json" % i)
             rec = {"property": pid, "obligation": "bounded:" + str(v.get("site", "")), "native_script": prop.NATIVE,
                    "input": v, "solver_output": "found by the bounded stand-in on the real code"}
-            json.dump(rec, open(os.path.join(ROOT, path), "w"), indent=1, default=str)
+            json.dump(rec, open(os.path.join(OUT, path), "w"), indent=1, default=str)
             print("VIOLATION property=%s replay=%s" % (pid, path))
             rc = max(rc, 1) if rc != 3 else 3
     if undecided and rc == 0:
@@ -314,8 +315,8 @@ def run_check(pid, tier):
         "wall_s": round(time.time() - t_start, 2),
         "violations": len(violations) + (len(nat_viol) if not violations else 0),
     }
-    os.makedirs(os.path.join(ROOT, "evidence"), exist_ok=True)
-    json.dump(ev, open(os.path.join(ROOT, "evidence", pid + ".json"), "w"), indent=1, default=str)
+    os.makedirs(os.path.join(OUT, "evidence"), exist_ok=True)
+    json.dump(ev, open(os.path.join(OUT, "evidence", pid + ".json"), "w"), indent=1, default=str)
     print("property=%s tier=%s obligations=%d discharged=%d known=%d functions=%d rc=%d wall=%.1fs" % (
         pid, tier, n_oblig, discharged, len(known_hit), len(fn_status), rc, time.time() - t_start))
     return rc
